@@ -346,6 +346,9 @@ func c03sVerifyStored(s *InmemoryStorageState, st c03sStored, evict bool, extra 
 	s.tries.delete(st.root)
 	labels["read-evicted"] = true
 	keys := full.m.Keys()
+	if !c03sDirectReads {
+		keys = nil // direct database reads (GetStorage -> GetFromDB) are C04's subject
+	}
 	for _, k := range keys {
 		v := full.m[k]
 		got, err := s.GetStorage(&st.root, []byte(k))
@@ -374,6 +377,9 @@ func c03sVerifyStored(s *InmemoryStorageState, st c03sStored, evict bool, extra 
 		}
 	}
 	probes = append(probes, extra...)
+	if !c03sDirectReads {
+		probes = nil
+	}
 	if len(probes) > 40 {
 		probes = probes[:40]
 	}
@@ -470,6 +476,14 @@ func c03sRun(t *rapid.T) (descr string, labels map[string]bool, storedWithConten
 			}
 			model = c03sStateModel{v1: v1, main: c03sTrieModel{kit.OrdMap{}, map[string]bool{}}, children: map[string]c03sTrieModel{}}
 			fmt.Fprintf(&d, "G(v1=%v)", v1)
+			if !c03sDirectReads {
+				// C03 only: one ordinary main key that is never deleted, so that no state consists
+				// of a single child-trie key (such a state is not written completely: C04, fix 04)
+				if err := tr.Put([]byte{0xfe}, []byte{1}); err != nil {
+					fail("Put: %v", err)
+				}
+				model.main.put([]byte{0xfe}, []byte{1}, v1)
+			}
 		} else {
 			parent = rapid.IntRange(0, len(stored)-1).Draw(t, "parent")
 			if rapid.IntRange(0, 1).Draw(t, "latest") == 0 {
@@ -498,6 +512,15 @@ func c03sRun(t *rapid.T) (descr string, labels map[string]bool, storedWithConten
 				fail("TrieState(%s) (parent state %d, evicted %v): %v; model %s", pst.root, parent, evicted, err, pst.model.full().m.Describe())
 			}
 			model = pst.model.clone()
+			// Roots do not commit to the version: if a state with the same root was
+			// stored under V1, the cached trie may be that V1 trie, and SetVersion(V0)
+			// on its snapshot panics ("cannot regress trie version"). The runtime's state
+			// version never decreases along a chain, so continue under V1 then.
+			for _, o := range stored {
+				if o.root == pst.root && o.model.v1 {
+					model.v1 = true
+				}
+			}
 			// the runtime sets the state version of the block on the trie state
 			if !model.v1 && rapid.IntRange(0, 3).Draw(t, "upgrade") == 0 {
 				model.v1 = true
@@ -688,6 +711,7 @@ func c03sLabelList(m map[string]bool) []string {
 }
 
 const c03sSaltChildren = true
+const c03sDirectReads = false
 
 func TestC03State(t *testing.T) {
 	defer kit.Flush()
